@@ -8,22 +8,29 @@ use rrtk::*;
 use rrtk_mon::*;
 type DQ = dyn Getter<Quantity, E>;
 const NAMES: [&str; 5] = ["IntegralStream", "DerivativeStream", "AccelerationToState", "VelocityToState", "PositionToState"];
+/// Reference value with a running error bound (in units of 2^-24): inputs are exact f32 values (error 0),
+/// every f32 operation adds one rounding relative to its RESULT, the i64-ns -> f32-seconds conversion two.
+/// This is much tighter than "epsilon times the magnitude of the operands" for differences of nearby
+/// samples: `(a - b)/dt` is accurate to a few ulps of the quotient, whereas `a/dt - b/dt` is not.
 #[derive(Clone, Copy, Debug, Default)]
 struct V {
     v: f64,
-    m: f64, // magnitude of the terms that went into v (for the forward bound)
+    m: f64, // accumulated absolute error bound / 2^-24
 }
 fn inp(x: f32) -> V {
-    V { v: x as f64, m: (x as f64).abs() }
+    V { v: x as f64, m: 0.0 }
 }
 fn diffq(a: V, b: V, dt: f64) -> V {
-    V { v: (a.v - b.v) / dt, m: (a.m + b.m) / dt }
+    let r = (a.v - b.v) / dt;
+    V { v: r, m: (a.m + b.m) / dt + 4.0 * r.abs() }
 }
 fn trap(a: V, b: V, dt: f64) -> V {
-    V { v: (a.v + b.v) / 2.0 * dt, m: (a.m + b.m) / 2.0 * dt }
+    let r = (a.v + b.v) / 2.0 * dt;
+    V { v: r, m: (a.m + b.m) / 2.0 * dt + 4.0 * r.abs() }
 }
 fn add(a: V, b: V) -> V {
-    V { v: a.v + b.v, m: a.m + b.m }
+    let r = a.v + b.v;
+    V { v: r, m: a.m + b.m + r.abs() }
 }
 /// Reference state machines. `n` = number of present samples in the current run.
 #[derive(Default, Clone, Debug)]
@@ -195,8 +202,9 @@ fn run_observed(c: &Case, shift: i64, skip: Option<&[bool]>) -> Vec<O> {
     }
     outs
 }
-fn kk(n: usize) -> f64 {
-    48.0 + 8.0 * n as f64
+/// head-room factor on the running error bound (which already grows with every operation)
+fn kk(_n: usize) -> f64 {
+    8.0
 }
 fn main() {
     let args = Args::parse();
